@@ -370,3 +370,43 @@ def fmt_key_safe(k) -> str:
         return fmt_key(k)
     except Exception:
         return str(k)
+
+
+def arg(ev: Event, index: int, name: Optional[str] = None):
+    """Argument of a call / new event by position or, failing that, by keyword (parameter names are taken from
+    the callee when it is known)."""
+    a = ev.d.get('args') or []
+    if index < len(a):
+        return a[index]
+    kw = ev.d.get('kwargs') or {}
+    names = []
+    if ev.kind == 'new':
+        init = ev.d['cls'].lookup('__init__')
+        if init is not None:
+            names = init.param_names[1:]
+    else:
+        c = ev.d.get('callee')
+        if isinstance(c, FuncInfo):
+            names = c.param_names[1:] if (c.cls is not None and not c.is_static) else c.param_names
+        else:
+            for c2 in ev.d.get('callees', ()):
+                if isinstance(c2, FuncInfo):
+                    names = c2.param_names[1:] if (c2.cls is not None and not c2.is_static) else c2.param_names
+                    break
+    if index < len(names) and names[index] in kw:
+        return kw[names[index]]
+    if name is not None and name in kw:
+        return kw[name]
+    return None
+
+
+def at_level(e: Event, fn: FuncInfo) -> bool:
+    """The event happens in fn itself or in a private helper extracted from it (same class / module)."""
+    if e.func is fn:
+        return True
+    g = e.func
+    if not g.name.startswith('_') or (g.name.startswith('__') and g.name.endswith('__')):
+        return False
+    if g.cls is None or fn.cls is None:
+        return g.cls is None and fn.cls is None and g.module is fn.module
+    return g.cls.is_subclass_of(fn.cls) or fn.cls.is_subclass_of(g.cls)
